@@ -74,6 +74,9 @@ func (c13Sim) Gen(prop, tier string, r *rand.Rand) interface{} {
 			a.Kind = "badopen"
 			a.Hostile = pick(r, "short", "badheader", "dir", "rocreate", "short")
 			a.Sessions = int(between(r, 1, 2))
+			if prop == "C05" {
+				a.Kind, a.Hostile = "reader", ""
+			}
 		}
 		if a.Sessions > budget {
 			a.Sessions = budget
@@ -167,11 +170,29 @@ func (c13Sim) Run(e *Env, ci interface{}) {
 	holders := 0
 	var hist []c13Op
 	completedWrites := int64(0)
+	// The same simulation also serves C05 ("after Sync any other handle observes
+	// the live handle's state") with an observer whose Open overlaps the
+	// writer's session; in that role only the mixture oracle is evaluated.
+	c05mode := e.Prop == "C05"
 	viol := func(oracle, format string, args ...interface{}) {
 		mu.Lock()
-		e.Violate(oracle, format, args...)
+		if c05mode {
+			if oracle == "C13.no-mixture" {
+				e.Violate("C05.synced-state-seen-by-overlapping-open", format, args...)
+			}
+		} else {
+			e.Violate(oracle, format, args...)
+		}
 		mu.Unlock()
 		s.Abort("violation")
+	}
+	if c05mode {
+		defer func() {
+			if e.Viol != nil && !strings.HasPrefix(e.Viol.Oracle, "C05.") {
+				e.Viol = nil
+			}
+			e.After = nil
+		}()
 	}
 	s.LockTrace = func(ev string, g *G, fd int) {
 		if ev == "wait" {
